@@ -91,15 +91,27 @@ func (c *Ctx) c17IndexAgreement() {
 				continue
 			}
 			k, obj := args[len(args)-2], args[len(args)-1]
-			name, _ := keyCtorOf(k)
-			if name == "" {
-				continue
-			}
 			inner := core.Strip(obj)
 			if mi, ok := obj.(*ssa.MakeInterface); ok {
 				inner = mi.X
 			}
 			if !isOrderedMap(inner) {
+				continue
+			}
+			name, _ := keyCtorOf(k)
+			if name == "" {
+				// the index key is a parameter (shared walker / updater): take the constructors used by the callers
+				if pi := paramIndex(fn, k); pi >= 0 {
+					for _, caller := range c.Contracts().funcs {
+						for _, cc := range core.Calls(caller) {
+							if core.StaticCallee(cc) == fn && pi < len(cc.Common().Args) {
+								if nm, _ := keyCtorOf(cc.Common().Args[pi]); nm != "" {
+									idxs = append(idxs, idxVar{inner, nm})
+								}
+							}
+						}
+					}
+				}
 				continue
 			}
 			idxs = append(idxs, idxVar{inner, name})
@@ -115,6 +127,17 @@ func (c *Ctx) c17IndexAgreement() {
 			}
 			return ""
 		}
+		idxAll := func(m ssa.Value) []string {
+			var out []string
+			seen := map[string]bool{}
+			for _, iv := range idxs {
+				if sameMapVar(iv.m, m) && !seen[iv.ctor] {
+					seen[iv.ctor] = true
+					out = append(out, iv.ctor)
+				}
+			}
+			return out
+		}
 		// walks: key constructors applied to elements of m.Keys()
 		for _, call := range core.Calls(fn) {
 			if !strings.HasSuffix(core.CalleeName(call), "orderedmap.OrderedMap).Keys") {
@@ -124,27 +147,25 @@ func (c *Ctx) c17IndexAgreement() {
 			if !ok {
 				continue
 			}
-			idx := idxOf(core.Receiver(call))
-			if idx == "" {
-				continue
-			}
-			for _, c2 := range core.Calls(fn) {
-				cc, ok := c2.(*ssa.Call)
-				if !ok {
-					continue
-				}
-				name, _ := keyCtorOf(cc)
-				if name == "" {
-					continue
-				}
-				fromKeys := false
-				for _, a := range cc.Call.Args {
-					if core.Mentions(a, func(v ssa.Value) bool { return v == ssa.Value(kc) }) {
-						fromKeys = true
+			for _, idx := range idxAll(core.Receiver(call)) {
+				for _, c2 := range core.Calls(fn) {
+					cc, ok := c2.(*ssa.Call)
+					if !ok {
+						continue
 					}
-				}
-				if fromKeys {
-					uses = append(uses, site{idx, name, c.P.Pos(cc.Pos()), shortFn(fn)})
+					name, _ := keyCtorOf(cc)
+					if name == "" {
+						continue
+					}
+					fromKeys := false
+					for _, a := range cc.Call.Args {
+						if core.Mentions(a, func(v ssa.Value) bool { return v == ssa.Value(kc) }) {
+							fromKeys = true
+						}
+					}
+					if fromKeys {
+						uses = append(uses, site{idx, name, c.P.Pos(cc.Pos()), shortFn(fn)})
+					}
 				}
 			}
 		}
@@ -230,5 +251,5 @@ func (c *Ctx) c17IndexAgreement() {
 				"elements of the index stored under "+idx+"(..) are turned into storage keys with "+u.ctor+" here, but their records live under "+ref+": the walk touches keys that do not exist and leaves the real records (e.g. the role record of a replaced admin, which the permission check reads) in place")
 		}
 	}
-	r.Floor("R17.6", "index walks building storage keys", n, 5)
+	r.Floor("R17.6", "index walks building storage keys", n, 4)
 }
